@@ -47,6 +47,9 @@ pub struct Fault {
     /// (it is raised inside the simulator's own code)
     #[serde(default)]
     pub via_send: bool,
+    /// task faults: the task's handle is registered with try_join (joined if finished) instead of join
+    #[serde(default)]
+    pub try_join: bool,
 }
 
 #[derive(Debug, Clone, Serialize, Deserialize, PartialEq)]
@@ -63,6 +66,9 @@ pub struct Model {
     /// per module: after its k-th handled message (counting from 0) it requests shutdown-and-restart (missing = never)
     #[serde(default)]
     pub restart_on: Vec<Option<usize>>,
+    /// per module: before its task, the module registers (try_join) a service task that is still running at the end
+    #[serde(default)]
+    pub service_first: Vec<bool>,
 }
 
 #[derive(Debug, Clone, Serialize, Deserialize, PartialEq)]
@@ -201,6 +207,10 @@ impl Module for Node {
             if steps > 0 {
                 let (idx, period, silent, mode) = (self.idx, self.model.task_period, self.silent.clone(), self.mode);
                 let task_fault = self.faults.iter().copied().find(|f| f.module == idx && matches!(f.site, Site::Task(_)));
+                if self.model.service_first.get(idx).copied().unwrap_or(false) {
+                    // like an accept loop: registered first, never finishes
+                    current().try_join(tokio::spawn(std::future::pending::<()>()));
+                }
                 let h = tokio::spawn(async move {
                     for j in 0..steps {
                         sleep(Duration::from_nanos(period)).await;
@@ -222,7 +232,7 @@ impl Module for Node {
                 });
                 // a task fault is only combined with the non-catching stereotype and a must-join handle;
                 // otherwise the handle is joined if finished (a deactivated module never finishes its task)
-                if task_fault.is_some() {
+                if task_fault.is_some_and(|f| !f.try_join) {
                     current().join(h);
                 } else {
                     current().try_join(h);
@@ -376,7 +386,7 @@ pub fn execute(case: &Case, mode: Mode) -> Run {
 /// a fixed little simulation; its trace must be the same before and after any faulty run
 pub fn followup_trace() -> Vec<Entry> {
     let case = Case {
-        model: Model { n: 3, star: false, stages: vec![1, 2, 1], timers: vec![vec![MS, 5 * MS], vec![2 * MS], vec![]], ttl: 4, task_steps: vec![2, 0, 1], task_period: 3 * MS, restart_on: Vec::new() },
+        model: Model { n: 3, star: false, stages: vec![1, 2, 1], timers: vec![vec![MS, 5 * MS], vec![2 * MS], vec![]], ttl: 4, task_steps: vec![2, 0, 1], task_period: 3 * MS, restart_on: Vec::new(), service_first: Vec::new() },
         faults: Vec::new(),
     };
     execute(&case, Mode::Baseline).log
@@ -497,6 +507,7 @@ pub fn gen_model(rng: &mut Rng) -> Model {
         task_steps: (0..n).map(|_| if rng.chance(1, 2) { 1 + rng.usize_below(5) } else { 0 }).collect(),
         task_period: (2 + rng.below(9)) * MS + 500_000,
         restart_on: (0..n).map(|_| if rng.chance(1, 4) { Some(rng.usize_below(4)) } else { None }).collect(),
+        service_first: (0..n).map(|_| rng.chance(1, 2)).collect(),
     }
 }
 
@@ -519,15 +530,16 @@ pub fn placements(model: &Model, baseline: &[Entry]) -> Vec<Fault> {
                     if after_send && !matches!(site, Site::Handle(_)) {
                         continue;
                     }
-                    v.push(Fault { module: m, site, catching, after_send, via_send: false });
+                    v.push(Fault { module: m, site, catching, after_send, via_send: false, try_join: false });
                     if !after_send && !catching && matches!(site, Site::Handle(k) if k % 3 == 0) {
-                        v.push(Fault { module: m, site, catching, after_send, via_send: true });
+                        v.push(Fault { module: m, site, catching, after_send, via_send: true, try_join: false });
                     }
                 }
             }
         }
         for j in 0..model.task_steps[m] {
-            v.push(Fault { module: m, site: Site::Task(j), catching: false, after_send: false, via_send: false });
+            v.push(Fault { module: m, site: Site::Task(j), catching: false, after_send: false, via_send: false, try_join: false });
+            v.push(Fault { module: m, site: Site::Task(j), catching: false, after_send: false, via_send: false, try_join: true });
         }
     }
     v
@@ -601,6 +613,12 @@ pub fn cmd(args: &Args) -> Report {
                 rep.count(key, 1);
                 if fl.catching {
                     rep.count("faults_with_catching_stereotype", 1);
+                }
+                if fl.try_join {
+                    rep.count("faults_in_try_joined_task", 1);
+                    if case.model.service_first.get(fl.module).copied().unwrap_or(false) {
+                        rep.count("faults_in_try_joined_task_registered_after_a_running_one", 1);
+                    }
                 }
                 if fl.via_send {
                     rep.count("faults_raised_inside_the_simulator_by_sending_on_a_transit_gate", 1);
